@@ -479,3 +479,52 @@ func InnermostLoop(fn *ssa.Function, b *ssa.BasicBlock) *ssa.BasicBlock {
 	}
 	return best
 }
+
+// LoopTrip recognises a counted loop at header h — `for i := 0; i < B; i++`
+// (phi [0, phi+1] < B) and go/ssa's lowering of `for i := range s`
+// (phi [-1, next], next = phi+1, next < B) — and returns the bound B: the body
+// runs exactly max(B,0) times unless it leaves the loop early.
+func LoopTrip(h *ssa.BasicBlock) (ssa.Value, bool) {
+	if len(h.Instrs) == 0 {
+		return nil, false
+	}
+	iff, ok := h.Instrs[len(h.Instrs)-1].(*ssa.If)
+	if !ok {
+		return nil, false
+	}
+	be, ok := iff.Cond.(*ssa.BinOp)
+	if !ok || be.Op != token.LSS {
+		return nil, false
+	}
+	isStep := func(v ssa.Value, ph *ssa.Phi) bool {
+		b, ok := v.(*ssa.BinOp)
+		if !ok || b.Op != token.ADD || b.X != ssa.Value(ph) {
+			return false
+		}
+		k, isC := ConstInt(b.Y)
+		return isC && k == 1
+	}
+	counted := func(ph *ssa.Phi, start int64) bool {
+		if ph.Block() != h || len(ph.Edges) != 2 {
+			return false
+		}
+		init, step := false, false
+		for _, e := range ph.Edges {
+			if k, isC := ConstInt(e); isC && k == start {
+				init = true
+			} else if isStep(e, ph) {
+				step = true
+			}
+		}
+		return init && step
+	}
+	if ph, ok := be.X.(*ssa.Phi); ok && counted(ph, 0) {
+		return be.Y, true
+	}
+	if nx, ok := be.X.(*ssa.BinOp); ok {
+		if ph, ok := nx.X.(*ssa.Phi); ok && isStep(nx, ph) && counted(ph, -1) {
+			return be.Y, true
+		}
+	}
+	return nil, false
+}
